@@ -226,3 +226,52 @@ func (p *Prog) stmtCalling(f *ssa.Function, suffix string) ast.Node {
 }
 
 func errNotFound(what string) error { return fmt.Errorf("construct not found: %s", what) }
+
+// ---------------------------------------------------------------------------
+// Generic text-anchored mutation operators. A control whose anchor text no longer
+// occurs is reported as inapplicable (never as a failure).
+
+// findFunc locates a production function by its rendered name suffix, e.g.
+// "(*tableEngine).PlayerCall" or "seat_manager.(*seatManager).rotatePositions".
+func (p *Prog) findFunc(name string) *ssa.Function {
+	for _, f := range p.Funcs {
+		if FuncName(f) == name || strings.HasSuffix(FuncName(f), "."+name) || strings.HasSuffix(FuncName(f), name) && strings.HasPrefix(name, "(") {
+			return f
+		}
+	}
+	return nil
+}
+
+// replaceIn replaces the n-th (0-based) occurrence of old inside the source text of
+// function fn by new.
+func replaceIn(fn, old, new string, nth int) func(p *Prog) (string, []byte, error) {
+	return func(p *Prog) (string, []byte, error) {
+		f := p.findFunc(fn)
+		if f == nil || f.Syntax() == nil {
+			return "", nil, errNotFound("function " + fn)
+		}
+		node := f.Syntax()
+		file, src, err := p.fileOf(node)
+		if err != nil {
+			return "", nil, err
+		}
+		s := p.Fset.Position(node.Pos()).Offset
+		e := p.Fset.Position(node.End()).Offset
+		body := string(src[s:e])
+		idx := -1
+		from := 0
+		for k := 0; k <= nth; k++ {
+			i := strings.Index(body[from:], old)
+			if i < 0 {
+				return "", nil, errNotFound(fmt.Sprintf("text %q (occurrence %d) in %s", old, nth, fn))
+			}
+			idx = from + i
+			from = idx + len(old)
+		}
+		nb := body[:idx] + new + body[idx+len(old):]
+		out := append([]byte{}, src[:s]...)
+		out = append(out, nb...)
+		out = append(out, src[e:]...)
+		return file, out, nil
+	}
+}
